@@ -179,7 +179,7 @@ def static_vars(text):
             continue                                       # `static struct x {` definitions: not used by libarchive
         if stop == '(':
             # function prototype/definition unless it is a function-pointer variable: static T (*name)(...)
-            fp = re.match(r'\s*\*\s*(?:const\s+)?([A-Za-z_]\w*)\s*\)', t[m.end():])
+            fp = re.match(r'\s*(?:[A-Z_]+\s+)?\*\s*(?:const\s+)?([A-Za-z_]\w*)\s*\)', t[m.end():])
             if not fp:
                 continue
             res.append((fp.group(1), False))
